@@ -1,0 +1,36 @@
+//go:build verif
+
+// Machine-checked contracts for package client (comment-only; compiled only
+// with the build tag "verif", and even then it adds no code). Read by
+// /verif/vcgen, which generates proof obligations from the SSA of the real
+// functions named below and discharges them with z3 / cvc5.
+
+package client
+
+//@ package client
+
+// ---------------------------------------------------------------------------
+// commands.go
+
+//@ pred isNL(c int) := c == '\r' || c == '\n'
+//@ pred noCRLF(s string) := forall i int :: 0 <= i && i < len(s) ==> !isNL(s[i])
+
+// firstnl(s): index of the first CR or LF in s, or len(s)
+//@ specfn firstnl(s string) int
+//@ axiom firstnl_def: forall s string :: 0 <= firstnl(s) && firstnl(s) <= len(s)
+//@    && (forall j int :: 0 <= j && j < firstnl(s) ==> !isNL(s[j]))
+//@    && (firstnl(s) < len(s) ==> isNL(s[firstnl(s)]))
+
+//@ func cutNewLines
+//@   property C08
+//@   safety C08
+//@   ensures result == s[:firstnl(s)]
+//@ end
+
+// ---------------------------------------------------------------------------
+// line.go
+
+//@ func parseUserHost
+//@   property C02
+//@   safety C02
+//@ end
